@@ -131,6 +131,16 @@ def enumerate_pairs(tier, rng):
     for _ in range(40 if tier == "quick" else 600):
         s = rng.choice([1e-9, 1e-3, 1e3, 1e6])
         yield rand_dgm(rng, rng.randint(1, 3), scale=s), rand_dgm(rng, rng.randint(1, 3), scale=s), "scale"
+    # infinite deaths at every position (first, between finite points, last, several, all), in either or both diagrams
+    for _ in range(80 if tier == "quick" else 1500):
+        lat = rng.random() < 0.5
+        ds = []
+        for _k in range(2):
+            d = rand_dgm(rng, rng.randint(0, 4), lattice=lat)
+            for _j in range(rng.choice([0, 1, 1, 2])):
+                d.insert(rng.randint(0, len(d)), [float(rng.randint(0, 3)), float("inf")])
+            ds.append(d)
+        yield ds[0], ds[1], "inf-position"
 
 
 def hash_seed_run(kind, cases, seeds):
